@@ -890,10 +890,10 @@ fn c15_o3c_token_expires_under_any_traffic() {
 }
 
 //@ ob: C15.O3d
-//@ tier: thorough
-//@ cap: 2400
+//@ tier: quick
+//@ cap: 800
 //@ rss: 8
-//@ time: 611
+//@ time: 291
 //@ also: C03
 //@ standins: tracing lru vcoll
 //@ desc: token expiry when the put itself triggers the second rotation: a token issued with a get_peers reply at t0, one later request (a ping) more than 300 s after it, then more than 300 s of silence: the put presenting the old token is refused with 203 -- the token is checked against the secrets as they are AFTER the rotation its own arrival causes, so an idle node does not honour arbitrarily old tokens
